@@ -57,7 +57,7 @@ def rtguards(ck):
         head, _, tag = r.partition(" | ")
         ck.case("rtguard" + r, nontrivial=True)
         bad = None
-        if head.startswith("guard "):
+        if head.startswith("guard off="):
             stat["guards"] += 1
             m = re.match(r"guard off=(\d+) esz=(\d+) stride=(\d+) want off=(\d+) esz=(\d+) stride=(\d+)", head)
             off, a, b, woff, wesz, wstride = map(int, m.groups())
